@@ -15,7 +15,8 @@ X="decimal.go"
 pos("panic-new-site-in-uadd",X,"	// len(z.mant) > 0\n\n	z.setExpAndRound(ex+int64(len(z.mant))*_DW-dnorm(z.mant), 0)\n}\n\n// z = x - y for |x| > |y|","	if len(z.mant) > 1<<20 {\n		panic(\"mantissa too long\")\n	}\n\n	z.setExpAndRound(ex+int64(len(z.mant))*_DW-dnorm(z.mant), 0)\n}\n\n// z = x - y for |x| > |y|","PANIC","uadd",quick=True)
 pos("panic-errnan-in-set",X,"	z.acc = Exact\n	if z != x {\n		z.form = x.form","	if x.form == inf && z.prec == 1 {\n		panic(ErrNaN{\"cannot hold an infinity\"})\n	}\n	z.acc = Exact\n	if z != x {\n		z.form = x.form","PANIC","Set")
 pos("panic-switch-no-longer-exhaustive",X,"	case zero:\n		return 0, Exact\n\n	case inf:\n		if x.neg {\n			return math.MinInt64, Above\n		}\n		return math.MaxInt64, Below\n	}","	case zero:\n		return 0, Exact\n	}","PANIC","Int64")
-pos("panic-extra-underflow-site","dec.go","	case m == 0:\n		// n == 0 because m >= n; result is 0\n		return z[:0]\n	case n == 0:\n		// result is x\n		return z.set(x)\n	}\n	// m > 0\n\n	z = z.make(m)","	case m == 0:\n		// n == 0 because m >= n; result is 0\n		return z[:0]\n	case n == 0:\n		// result is x\n		return z.set(x)\n	case m > 1<<30:\n		panic(\"underflow\")\n	}\n	// m > 0\n\n	z = z.make(m)","PANIC","dec.sub")
+# (removed) panic-extra-underflow-site: one more panic with an already tabled message in the same function is no longer
+# counted — the tabled argument covers the function/message pair, and a branch split in two repeats its panic (benign b2-R4-ref09)
 neg("neg-panic-defensive-unreachable",X,"	case inf:\n		m = 2\n	}\n	if x.neg {","	case inf:\n		m = 2\n	default:\n		panic(\"unreachable\")\n	}\n	if x.neg {",["PANIC"],quick=True,note="a defensive panic behind an exhaustive switch satisfies the discharge rule without a table edit")
 pos("enum-acc-out-of-range",X,"func (z *Decimal) SetInf(signbit bool) *Decimal {\n	z.acc = Exact\n","func (z *Decimal) SetInf(signbit bool) *Decimal {\n	z.acc = 2\n","ENUM","SetInf",quick=True)
 pos("enum-mode-from-int",X,"func (z *Decimal) SetMode(mode RoundingMode) *Decimal {\n	z.mode = mode\n","func (z *Decimal) SetMode(mode RoundingMode) *Decimal {\n	z.mode = mode + 1\n","ENUM","SetMode")
